@@ -32,6 +32,19 @@ Theorem C06_append_base : forall c evs s t raw s' lod cnt,
 Proof. exact append_extends. Qed.
 Print Assumptions C06_append_base.
 
+(* (2b) offsets SHOWN to a consumer. In flushOnAck mode handleFetch serves only offsets below
+       the metadata store's next_offset read at fetch time ([fetch_limit]; the harness checks
+       the real handleFetch against this: every record batch a Fetch returns -- also while a
+       produce is between AppendBatch and the end of its flush -- must already be in an S3
+       segment with index). Everything below the fetch limit of ANY earlier state was in S3
+       then, and in every later live state (after any crashes and restarts) lies below the
+       next offset to be assigned: a shown offset is never given to another record. *)
+Theorem C06_served_never_reassigned : forall c evs1 evs2 s1 s,
+  run (init c) evs1 = Some s1 -> run s1 evs2 = Some s -> s_live s = true ->
+  fetch_limit s1 <= s3_end s1 /\ fetch_limit s1 <= s_next s.
+Proof. exact served_never_reassigned. Qed.
+Print Assumptions C06_served_never_reassigned.
+
 (* (3) acknowledged data is never hidden or overwritten later on, whatever leftovers exist *)
 Theorem C06_acked_stays : forall c evs1 evs2 s1 s,
   run (init c) evs1 = Some s1 -> run s1 evs2 = Some s ->
